@@ -487,6 +487,15 @@ func specGen() *rapid.Generator[inputSpec] {
 			}
 		}
 		s.Shared = univ.V{X: map[string]any{"a": rapid.IntRange(0, 3).Draw(t, "sa"), "q": []any{1, 2}}}
+		if rapid.IntRange(0, 3).Draw(t, "wide") == 0 {
+			// a wide object: whatever is derived from it (previews in error
+			// messages, key lists, entries) must not depend on map iteration order
+			m := map[string]any{"a": rapid.IntRange(0, 3).Draw(t, "sa2"), "q": []any{1, 2}}
+			for i := 0; i < 14; i++ {
+				m[fmt.Sprintf("k%c", 'a'+i)] = i
+			}
+			s.Shared = univ.V{X: m}
+		}
 		return s
 	})
 }
